@@ -8,37 +8,70 @@ the state after some prefix of these steps (the freezer keeps a prefix of the ap
 and each of the two write batches is atomic, which is coarser than single deletions), so every
 statement quantified over `Steps s t` covers every crash point.
 
-What the code as written does NOT satisfy is kept as witnesses (`part_accessors_change_when_frozen`,
-`get_block_by_hash_returns_other_block`); `freeze_panics_on_stale_epoch_row_prefix` is the regression
-witness of the F9 consequence that /repo commit e69f9a7 repaired.
+The model follows /repo with its three repairs: F9 (e69f9a7), F17 (ea444a5, `get_block(hash)`
+compares the hash of the freezer item) and F18 (the seven part accessors fall back to
+`get_frozen_block`).  What the code did before each repair is kept as regression witnesses about the
+`…PreF17` / `…PreF18` / `Store.PreFix` functions (`part_accessors_change_when_frozen_prefix`,
+`get_block_by_hash_returns_other_block_prefix`, `freeze_panics_on_stale_epoch_row_prefix`).
 -/
 import CkbVerif.Lemmas.Freeze
 import CkbVerif.Lemmas.FreezeStart
+import CkbVerif.Lemmas.FreezeChain
 namespace CkbVerif.C10
 open CkbVerif.Store CkbVerif.Freeze
 
 /-! ### C10.1 — the dispatching accessors answer the same before, during and after a pass -/
 
-/-- FULL STATEMENT (not provable — false for the code as written, see the witnesses below):
-`∀ q ∈ {get_block, get_packed_block, get_block_header, get_block_body, get_block_txs_hashes,
-get_cellbase, get_block_uncles, get_block_proposal_txs_ids, get_block_extension, get_transaction,
-get_transaction_info, get_ancestor, get_cell}, answer t q = answer s q` for every main-chain block.
-PROVED PART: the accessors that dispatch on `freezer.number()` or never touch deleted rows —
-`get_block(hash)`, `get_block_header`, (and `get_transaction*` below; `get_ancestor` is
-`get_block_header` + the index, `get_cell*` are columns the pass never writes: `freeze` does not
-change `v`) — for every main-chain block, in every state a freezer pass, or any crash inside it,
-can leave: the answer is the block.  MISSING: the seven part accessors (finding F18, negation
-witness `part_accessors_change_when_frozen`). -/
+/-- **C10.1, full.**  For every main-chain block (`OnMain s id blk`), in every state `t` that a
+freezer pass, or any crash inside it (= any prefix of its micro-steps), can leave when started in a
+state satisfying the freezer invariant: EVERY listed accessor answers the block (resp. its part), in
+`t` exactly as in `s` — `get_block`, `get_packed_block`, `get_block_header`, the part accessors
+(`getPart` stands for `get_block_proposal_txs_ids` / `get_block_extension`, which the model does not
+split off, and is projected to `get_block_body`, `get_block_txs_hashes`, `get_cellbase`,
+`get_block_uncles`), `get_ancestor` to its height; and the whole chain view `v` (live cells = `get_cell`,
+number index, transaction-info rows, epoch rows) is untouched.  `get_transaction(_info)` is
+`transactions_invariant_under_freeze` below.  Holds since the repair of F18; before it the part
+accessors and `get_packed_block` flipped to nothing (`part_accessors_change_when_frozen_prefix`). -/
+theorem queries_invariant_under_freeze (s t : FS) (h : Inv s) (st : Steps s t)
+    (id : Nat) (blk : Block) (hm : OnMain s id blk) :
+    (getBlock t id = .some blk ∧ getBlock s id = .some blk) ∧
+    (getPacked t id = some blk ∧ getPacked s id = some blk) ∧
+    (getHeader t id = some blk ∧ getHeader s id = some blk) ∧
+    (getPart t id = some blk ∧ getPart s id = some blk) ∧
+    (getBody t id = blk.txs ∧ getBody s id = blk.txs) ∧
+    (getTxsHashes t id = blk.txs.map (·.id) ∧ getTxsHashes s id = blk.txs.map (·.id)) ∧
+    (getCellbase t id = blk.txs.head? ∧ getCellbase s id = blk.txs.head?) ∧
+    (getUncles t id = some blk.uncles ∧ getUncles s id = some blk.uncles) ∧
+    (getAncestor t blk.number = some blk ∧ getAncestor s blk.number = some blk) ∧
+    t.v = s.v := by
+  have ht := inv_steps h st
+  have hm' := (onMain_steps st id blk).mpr hm
+  have p1 := getPart_main t ht id blk hm'
+  have p2 := getPart_main s h id blk hm
+  have a1 : getAncestor t blk.number = some blk := by
+    simp [getAncestor, hm'.2, getHeader_main t ht id blk hm']
+  have a2 : getAncestor s blk.number = some blk := by
+    simp [getAncestor, hm.2, getHeader_main s h id blk hm]
+  refine ⟨⟨getBlock_main t ht id blk hm', getBlock_main s h id blk hm⟩,
+    ⟨getPacked_main t ht id blk hm', getPacked_main s h id blk hm⟩,
+    ⟨getHeader_main t ht id blk hm', getHeader_main s h id blk hm⟩,
+    ⟨p1, p2⟩, ?_, ?_, ?_, ?_, ⟨a1, a2⟩, ?_⟩
+  · simp [getBody, p1, p2]
+  · simp [getTxsHashes, getBody, p1, p2]
+  · simp [getCellbase, p1, p2]
+  · simp [getUncles, p1, p2]
+  · clear p1 p2 a1 a2 hm hm' ht h
+    induction st with
+    | refl => rfl
+    | tail _ st ih => cases st <;> exact ih
+
+/-- the part of `queries_invariant_under_freeze` that was provable before the repair of F18 (kept
+under its name: `get_block(hash)` and `get_block_header` only) -/
 theorem queries_invariant_under_freeze_partial (s t : FS) (h : Inv s) (st : Steps s t)
     (id : Nat) (blk : Block) (hm : OnMain s id blk) :
     getBlock t id = getBlock s id ∧ getBlock t id = .some blk ∧ getHeader t id = getHeader s id := by
-  have ht := inv_steps h st
-  have hm' := (onMain_steps st id blk).mpr hm
-  have h1 := getBlock_main t ht id blk hm'
-  have h2 := getBlock_main s h id blk hm
-  refine ⟨by rw [h1, h2], h1, ?_⟩
-  have hb : t.v.r.bodies id = s.v.r.bodies id := by rw [hm'.1, hm.1]
-  simp [getHeader, ht.hdrOk id blk hm', h.hdrOk id blk hm, hb]
+  obtain ⟨⟨b1, b2⟩, _, ⟨h1, h2⟩, _⟩ := queries_invariant_under_freeze s t h st id blk hm
+  exact ⟨by rw [b1, b2], b1, by rw [h1, h2]⟩
 
 /-- every committed transaction with its location reads the same (`get_transaction`,
 `get_transaction_info`, `get_transaction_with_info`) -/
@@ -93,6 +126,22 @@ theorem freeze_invisible_on_replayed_chain (g : Block) (rest : List Block) (stor
   have hinv : Inv s := inv_start _ _ (storeOk_attachAll (storeOk_init g hg) hc)
   exact ⟨hinv, queries_invariant_under_freeze_partial s _ hinv (passes_steps n s hinv) id blk hm⟩
 
+/-- the same with every part accessor and the packed block (full accessor list, replayed chain,
+any number of passes) -/
+theorem freeze_invisible_on_replayed_chain_all_accessors (g : Block) (rest : List Block) (stored : List Nat)
+    (hg : Valid Main.empty Recs.empty g) (hc : ValidChain (init g) rest) (n : Nat)
+    (id : Nat) (blk : Block) (hm : OnMain (startState (replay (g :: rest)) stored) id blk) :
+    let s := startState (replay (g :: rest)) stored
+    getBlock (passes n s) id = .some blk ∧ getPacked (passes n s) id = some blk ∧
+      getHeader (passes n s) id = some blk ∧ getPart (passes n s) id = some blk ∧
+      getBody (passes n s) id = blk.txs ∧ getCellbase (passes n s) id = blk.txs.head? ∧
+      getUncles (passes n s) id = some blk.uncles ∧ (passes n s).v = s.v := by
+  intro s
+  have hinv : Inv s := inv_start _ _ (storeOk_attachAll (storeOk_init g hg) hc)
+  obtain ⟨⟨b, _⟩, ⟨k, _⟩, ⟨hh, _⟩, ⟨p, _⟩, ⟨bd, _⟩, _, ⟨cb, _⟩, ⟨un, _⟩, _, hv⟩ :=
+    queries_invariant_under_freeze s _ hinv (passes_steps n s hinv) id blk hm
+  exact ⟨b, k, hh, p, bd, cb, un, hv⟩
+
 /-! ### C10.2 — crash safety -/
 
 theorem steps_frozen_prefix {s t : FS} (st : Steps s t) : ∃ new, t.frozen = s.frozen ++ new := by
@@ -112,6 +161,17 @@ theorem freeze_crash_safe (s t : FS) (h : Inv s) (st : Steps s t) :
     Inv t ∧ (∃ new, t.frozen = s.frozen ++ new) ∧
     ∀ id blk, OnMain s id blk → getBlock t id = .some blk :=
   ⟨inv_steps h st, steps_frozen_prefix st, fun id blk hm => (queries_invariant_under_freeze_partial s t h st id blk hm).2.1⟩
+
+/-- crash safety for the full accessor list: at every crash point every main-chain block still
+answers with itself through every accessor -/
+theorem freeze_crash_safe_all_accessors (s t : FS) (h : Inv s) (st : Steps s t) :
+    Inv t ∧ (∃ new, t.frozen = s.frozen ++ new) ∧ t.v = s.v ∧
+    ∀ id blk, OnMain s id blk →
+      getBlock t id = .some blk ∧ getPacked t id = some blk ∧ getHeader t id = some blk ∧
+      getPart t id = some blk := by
+  refine ⟨inv_steps h st, steps_frozen_prefix st, steps_keep_view st, fun id blk hm => ?_⟩
+  obtain ⟨⟨b, _⟩, ⟨k, _⟩, ⟨hh, _⟩, ⟨p, _⟩, _⟩ := queries_invariant_under_freeze s t h st id blk hm
+  exact ⟨b, k, hh, p⟩
 
 /-! ### C10.3 — only side-chain blocks are removed -/
 
@@ -186,6 +246,88 @@ theorem only_old_blocks_move (s : FS) (thr : Nat) (ht : threshold s = .at thr) :
   have := hthr.1
   omega
 
+/-! ### C10.5 — chain operations interleaved with freezer passes
+
+`Inv` is not a hypothesis about node states: it holds at the start (nothing frozen, any replayed
+well-formed chain) and is kept by every micro-step of a pass AND by every chain-service step that
+can happen between (or during: the freezer runs in its own thread) passes — a side block stored at
+a frozen or not-yet-frozen height, an extension, a reorg at or above the last frozen block.
+EXCLUDED: a chain step that changes the number index below `freezer.number()`
+(`ChainOk.keepFrozen`), i.e. a reorg whose fork point is below the last frozen block.  /repo has
+no rule against it; what happens then is `reorg_below_frozen_height_breaks_transactions_witness`. -/
+
+/-- states reachable from a fresh node by interleaving chain-service steps with freezer micro-steps
+(= passes cut at any crash point) -/
+inductive Reach : FS → Prop
+  | start (g : Block) (rest : List Block) (stored : List Nat)
+      (hg : Valid Main.empty Recs.empty g) (hc : ValidChain (init g) rest) :
+      Reach (startState (replay (g :: rest)) stored)
+  | micro {s t : FS} : Reach s → Step s t → Reach t
+  | chain {s : FS} (b : Block) (v' : View) : Reach s → ChainOk s b v' → Reach (chainStore s b v')
+
+/-- the freezer invariant (and "index rows name stored blocks") holds in every reachable state -/
+theorem inv_reachable {s : FS} (r : Reach s) : Inv s ∧ IdxStored s := by
+  induction r with
+  | start g rest stored hg hc =>
+    have hok := storeOk_attachAll (storeOk_init g hg) hc
+    refine ⟨inv_start _ _ hok, ?_⟩
+    intro n id hi
+    obtain ⟨blk, hb, _⟩ := hok.numOk n id hi
+    exact ⟨blk, hb⟩
+  | micro _ st ih => exact ⟨inv_step ih.1 st, idxStored_step ih.2 st⟩
+  | chain b v' _ ok ih => exact ⟨inv_chainStore _ ih.1 b v' ok, idxStored_chainStore _ b v' ok⟩
+
+/-- **C10.1 over reachable states**: in every state reachable by interleaving chain operations and
+freezer micro-steps, and after any further (partial) pass, every accessor answers every main-chain
+block with the block -/
+theorem queries_invariant_in_every_reachable_state (s t : FS) (r : Reach s) (st : Steps s t)
+    (id : Nat) (blk : Block) (hm : OnMain s id blk) :
+    getBlock t id = .some blk ∧ getPacked t id = some blk ∧ getHeader t id = some blk ∧
+    getPart t id = some blk ∧ getBody t id = blk.txs ∧ getCellbase t id = blk.txs.head? ∧
+    getUncles t id = some blk.uncles ∧ getAncestor t blk.number = some blk ∧ t.v = s.v := by
+  obtain ⟨⟨b, _⟩, ⟨k, _⟩, ⟨hh, _⟩, ⟨p, _⟩, ⟨bd, _⟩, _, ⟨cb, _⟩, ⟨un, _⟩, ⟨an, _⟩, hv⟩ :=
+    queries_invariant_under_freeze s t (inv_reachable r).1 st id blk hm
+  exact ⟨b, k, hh, p, bd, cb, un, an, hv⟩
+
+/-- a side block (not a new best block) stored by the model's chain service `Store.process` at any
+height — frozen, the next to be frozen, or above — is such a chain step; in particular it neither
+shadows nor removes anything of the main chain -/
+theorem side_block_keeps_freezer_invariant (s : FS) (r : Reach s) (b : Block)
+    (hsame : ∀ blk, s.v.r.bodies b.id = some blk → blk = b)
+    (hside : ¬ (freshExt (Store.insertBlock s.v.r b) b).td > tdOf (Store.insertBlock s.v.r b) (s.v.m.tip.getD 0)) :
+    Reach (chainStore s b (process s.v b)) ∧ (process s.v b).m = s.v.m ∧
+    ∀ id blk, OnMain s id blk → OnMain (chainStore s b (process s.v b)) id blk := by
+  have hi := inv_reachable r
+  have ok := sideBlock_chainOk s hi.1 hi.2 b hsame hside
+  have hm : (process s.v b).m = s.v.m := by simp only [process]; simp [hside]
+  refine ⟨Reach.chain b _ r ok, hm, ?_⟩
+  intro id blk ⟨h1, h2⟩
+  refine ⟨?_, by show (process s.v b).m.index blk.number = some id; rw [hm]; exact h2⟩
+  show (process s.v b).r.bodies id = some blk
+  rw [ok.bodies]
+  by_cases hid : id = b.id
+  · subst hid; have := hsame blk h1; subst this; simp [upd]
+  · simp [upd, hid, h1]
+
+/-- an extension of the main chain or a reorg whose fork point is at or above the last frozen block
+is such a chain step.  `hold` / `hnew`: the number index is the replay of the old / new main chain
+(for the model's `Store.process` this is `C02.attach_replay` / `C02.process_reorg_eq_replay`);
+`hfork` is the exclusion; `hrows`: blocks joining from a side branch have their rows. -/
+theorem reorg_above_frozen_height_keeps_freezer_invariant (s : FS) (r : Reach s) (b : Block) (v' : View)
+    (g : Block) (rest rest' : List Block)
+    (hold : s.v.m.index = (replay (g :: rest)).m.index)
+    (hnew : v'.m.index = (replay (g :: rest')).m.index)
+    (hnum : ∀ n (h : n < (g :: rest).length), ((g :: rest)[n]).number = n)
+    (hnum' : ∀ n (h : n < (g :: rest').length), ((g :: rest')[n]).number = n)
+    (hbod : v'.r.bodies = upd s.v.r.bodies b.id (some b))
+    (hsame : ∀ blk, s.v.r.bodies b.id = some blk → blk = b)
+    (hstored' : ∀ blk ∈ g :: rest', v'.r.bodies blk.id = some blk)
+    (hfork : ∀ n, n < frozenNumber s → (g :: rest')[n]? = (g :: rest)[n]?)
+    (hrows : ∀ blk ∈ g :: rest', blk ∈ g :: rest ∨ blk.id = b.id ∨ (s.hdr blk.id = true ∧ s.body blk.id = true)) :
+    Reach (chainStore s b v') ∧ Inv (chainStore s b v') := by
+  have ok := mainChange_chainOk s b v' g rest rest' hold hnew hnum hnum' hbod hsame hstored' hfork hrows
+  exact ⟨Reach.chain b v' r ok, (inv_reachable (Reach.chain b v' r ok)).1⟩
+
 /-! ### witnesses: what the code as written does not keep invariant -/
 
 namespace Witness
@@ -220,26 +362,45 @@ def chainF9Pre : View :=
     (PreFix.process (init g) b1) s1) b2) s2) b3) s3) b4
 def sF9Pre : FS := { s0 with v := chainF9Pre, stored := [0, 1, 11, 2, 21, 3, 31, 4] }
 def sF9 : FS := { s0 with v := chainF9, stored := [0, 1, 11, 2, 21, 3, 31, 4] }
+
+/-- a heavier branch `0 <- 51 <- 52 <- 53 <- 54 <- 55` that forks BELOW the frozen block 1, with its
+own transactions 2001.. -/
+def mk' (id parent number txid : Nat) : Block :=
+  { mk id parent number with txs := [{ id := txid, inputs := [], outputs := [] }] }
+def d1 := mk' 51 0 1 2001
+def d2 := mk' 52 51 2 2002
+def d3 := mk' 53 52 3 2003
+def d4 := mk' 54 53 4 2004
+def d5 := mk' 55 54 5 2005
+def chainStep (s : FS) (b : Block) : FS := chainStore s b (process s.v b)
+/-- after the pass (block 1 frozen and wiped), the chain service stores the heavier branch -/
+def deep : FS := chainStep (chainStep (chainStep (chainStep (chainStep afterPass d1) d2) d3) d4) d5
 end Witness
 
 open Witness in
-/-- one pass on the chain `g,1,2,3,4` (tip in epoch 4) freezes height 1 exactly, wipes block 1's body
-rows and removes the side block 11; `get_block` still answers block 1 — but every part accessor of
-block 1 (body, cellbase, uncles, proposals, extension, packed block) now answers nothing: they have
-no freezer dispatch in `store.rs` (finding F18). -/
-theorem part_accessors_change_when_frozen :
+/-- **before the repair of F18 (regression witness about `getPartPreF18` / `getPackedPreF18`)**: one
+pass on the chain `g,1,2,3,4` (tip in epoch 4) freezes height 1 exactly, wipes block 1's body rows
+and removes the side block 11; `get_block` still answers block 1 — but every part accessor of block 1
+(body, cellbase, uncles, proposals, extension, packed block) answered nothing: they had no freezer
+dispatch in `store.rs`.  With the repair (`getPart`, `getPacked`) they answer block 1. -/
+theorem part_accessors_change_when_frozen_prefix :
     (freeze s0).2 = .ok ∧ afterPass.frozen = [b1] ∧
     getBlock s0 1 = .some b1 ∧ getBlock afterPass 1 = .some b1 ∧
-    getPart s0 1 = some b1 ∧ getPart afterPass 1 = none ∧
-    getPacked s0 1 = some b1 ∧ getPacked afterPass 1 = none ∧
-    afterPass.hdr 11 = false ∧ afterPass.hdr 1 = true := by
+    getPartPreF18 s0 1 = some b1 ∧ getPartPreF18 afterPass 1 = none ∧
+    getPackedPreF18 s0 1 = some b1 ∧ getPackedPreF18 afterPass 1 = none ∧
+    afterPass.hdr 11 = false ∧ afterPass.hdr 1 = true ∧
+    getPart s0 1 = some b1 ∧ getPart afterPass 1 = some b1 ∧
+    getPacked s0 1 = some b1 ∧ getPacked afterPass 1 = some b1 := by
   decide
 
 open Witness in
-/-- a block stored at an already frozen height is answered with the frozen main-chain block of
-that height: `get_block(hash of 12)` is block 1 (finding F17). -/
-theorem get_block_by_hash_returns_other_block :
-    getBlock afterLate 12 = .some b1 ∧ b1.id ≠ 12 := by
+/-- **before the repair of F17 (regression witness about `getBlockPreF17`)**: a block stored at an
+already frozen height was answered with the frozen main-chain block of that height:
+`get_block(hash of 12)` was block 1.  As /repo is now it is block 12, through every accessor. -/
+theorem get_block_by_hash_returns_other_block_prefix :
+    getBlockPreF17 afterLate 12 = .some b1 ∧ b1.id ≠ 12 ∧
+    getBlock afterLate 12 = .some s1late ∧ getPart afterLate 12 = some s1late ∧
+    getPacked afterLate 12 = some s1late := by
   decide
 
 open Witness in
@@ -251,18 +412,43 @@ theorem freeze_panics_on_stale_epoch_row_prefix :
     threshold sF9 = .at 2 ∧ (freeze sF9).2 = .ok ∧ threshold s0 = .at 2 := by
   decide
 
-/-! ### the repair proposed for F17 (`/verif/work/C10-fix-F17.diff`, model `getBlockF17`) -/
+open Witness in
+/-- **the excluded interleaving (model-level finding; not an op of the generator).**  After block 1
+was frozen, a heavier branch forking at genesis becomes the main chain (`Store.process`, five
+blocks).  Height 1 is now block 51, the freezer still holds block 1 there.  `get_block(hash)` and
+the part accessors stay right (the hash test of F17/F18), but `get_transaction_with_info` dispatches
+on the NUMBER in the tx-info row: the transaction 2001 committed in block 51 is answered with
+transaction 1001 of the stale frozen block 1 — a wrong transaction under the right location — and
+every later pass fails on the parent-hash check (`.err`): the freezer is stuck below the fork. -/
+theorem reorg_below_frozen_height_breaks_transactions_witness :
+    deep.v.m.tip = some 55 ∧ deep.v.m.index 1 = some 51 ∧ deep.frozen = [b1] ∧
+    (getTx deep 2001).map (fun p => (p.1.id, p.2.blockId, p.2.number)) = some (1001, 51, 1) ∧
+    getBlock deep 51 = .some d1 ∧ getPart deep 51 = some d1 ∧ getPacked deep 51 = some d1 ∧
+    (freeze deep).2 = .err ∧ ¬ Inv deep := by
+  refine ⟨by decide, by decide, by decide, by decide, by decide, by decide, by decide, by decide, ?_⟩
+  intro h
+  have := (h.frozenOk 0 b1 (by decide)).2.2
+  revert this
+  decide
+
+/-! ### the repair of F17 (/repo ea444a5; `getBlock` is the repaired code, `getBlockPreF17` the old) -/
 
 /-- with the hash comparison in place `get_block(hash)` can only answer with the block asked for … -/
 theorem get_block_repaired_never_returns_other_block (s : FS)
     (hid : ∀ id blk, s.v.r.bodies id = some blk → blk.id = id) (id : Nat) (b : Block)
-    (h : getBlockF17 s id = .some b) : b.id = id :=
-  getBlockF17_sound s hid id b h
+    (h : getBlock s id = .some b) : b.id = id :=
+  getBlock_sound s hid id b h
 
-/-- … and nothing changes for main-chain blocks, frozen or not -/
+/-- … the same for the part accessors and the packed block, which share `get_frozen_block` … -/
+theorem part_accessors_never_return_other_block (s : FS)
+    (hid : ∀ id blk, s.v.r.bodies id = some blk → blk.id = id) (id : Nat) (b : Block) :
+    (getPart s id = some b → b.id = id) ∧ (getPacked s id = some b → b.id = id) :=
+  ⟨getPart_sound s hid id b, getPacked_sound s hid id b⟩
+
+/-- … and nothing changed for main-chain blocks, frozen or not -/
 theorem get_block_repaired_same_on_main (s : FS) (h : Inv s) (id : Nat) (blk : Block) (hm : OnMain s id blk) :
-    getBlockF17 s id = getBlock s id := by
-  rw [getBlockF17_main s h id blk hm, getBlock_main s h id blk hm]
+    getBlock s id = getBlockPreF17 s id := by
+  rw [getBlockPreF17_main s h id blk hm, getBlock_main s h id blk hm]
 
 /-! ### non-vacuity: the invariant holds on the witness chain, and the pass is made of steps -/
 
@@ -280,10 +466,9 @@ def sI : FS :=
           { Recs.empty with bodies := fun id => if id ≤ 2 then some (Witness.mk id (id - 1) id) else none }⟩,
     hdr := fun _ => true, body := fun id => id != 1, stored := [0, 2], frozen := [Witness.mk 1 0 1] }
 
-/-- the invariant is satisfiable by a state with a frozen, wiped block; `get_block` answers it from
-the freezer while its part accessors answer nothing -/
-example : Inv sI ∧ OnMain sI 1 (Witness.mk 1 0 1) ∧ getBlock sI 1 = .some (Witness.mk 1 0 1) ∧ getPart sI 1 = none := by
-  refine ⟨⟨?_, ?_, ?_, ?_, ?_⟩, ⟨by decide, by decide⟩, by decide, by decide⟩
+/-- the invariant holds in `sI` -/
+theorem sI_inv : Inv sI := by
+  refine ⟨?_, ?_, ?_, ?_, ?_⟩
   · intro k fb hk
     cases k with
     | zero => simp [sI] at hk; subst hk; decide
@@ -308,5 +493,39 @@ example : Inv sI ∧ OnMain sI 1 (Witness.mk 1 0 1) ∧ getBlock sI 1 = .some (W
     · simp [hn] at h1; subst h1
       simp [hn] at h2; subst h2; rfl
     · simp [hn] at h1
+
+/-- the invariant is satisfiable by a state with a frozen, wiped block; `get_block` and every part
+accessor answer it from the freezer (before the repair of F18 the part accessors answered nothing) -/
+example : Inv sI ∧ OnMain sI 1 (Witness.mk 1 0 1) ∧ getBlock sI 1 = .some (Witness.mk 1 0 1) ∧
+    getPart sI 1 = some (Witness.mk 1 0 1) ∧ getPacked sI 1 = some (Witness.mk 1 0 1) ∧
+    getPartPreF18 sI 1 = none :=
+  ⟨sI_inv, ⟨by decide, by decide⟩, by decide, by decide, by decide, by decide⟩
+
+/-- non-vacuity of the chain-step theorems: in `sI` (block 1 frozen and wiped) a side block stored at
+the FROZEN height 1 satisfies `sideBlock_chainOk`'s hypotheses, the resulting state satisfies the
+invariant, block 1 still answers from the freezer through every accessor, and the side block
+answers with itself -/
+example : let b := Witness.mk 7 0 1
+    ChainOk sI b (process sI.v b) ∧ Inv (chainStore sI b (process sI.v b)) ∧
+    getPart (chainStore sI b (process sI.v b)) 1 = some (Witness.mk 1 0 1) ∧
+    getBlock (chainStore sI b (process sI.v b)) 7 = .some b := by
+  intro b
+  have hidx : IdxStored sI := by
+    intro n id hi
+    simp only [sI] at hi ⊢
+    by_cases hn : n ≤ 2
+    · simp [hn] at hi; subst hi; exact ⟨Witness.mk n (n - 1) n, by simp [hn]⟩
+    · simp [hn] at hi
+  have ok : ChainOk sI b (process sI.v b) :=
+    sideBlock_chainOk sI sI_inv hidx b (by intro blk h; simp [sI, b, Witness.mk] at h) (by decide)
+  exact ⟨ok, inv_chainStore sI sI_inv b _ ok, by decide, by decide⟩
+
+/-- non-vacuity of `Reach`: a fresh node on the genesis block alone -/
+example : Reach (startState (replay [Witness.g]) [0]) :=
+  Reach.start Witness.g [] [0]
+    ⟨by decide, fun _ _ => rfl, fun _ _ => rfl, rfl, rfl, fun _ _ => rfl,
+     by intro o ho; simp [deadInputs, Witness.g, Witness.mk] at ho,
+     Or.inl rfl, by decide, fun _ => rfl, Or.inl rfl, Or.inr ⟨by decide, rfl⟩⟩
+    (ValidChain.nil _)
 
 end CkbVerif.C10
